@@ -18,6 +18,15 @@ def mapspec(rng, kinds=("log", "lin", "cub"), with_offset=True):
         return "%s:g:%s:%s" % (k, f2h(g), f2h(off)), a
     return "%s:a:%s" % (k, f2h(a)), a
 
+def spec_list(rng, n):
+    """n random mapping specs plus a fixed cover of the corners every sketch-level check should see whatever the seed: each kind rebuilt from
+    (gamma, offset) with a negative offset, with offset exactly 0 and with a large positive offset, as decoders and FromProto build them."""
+    out = [mapspec(rng)[0] for _ in range(n)]
+    for k, a, off in (("log", 0.01, -12.25), ("lin", 0.02, -1000.0), ("cub", 0.01, -3.5), ("lin", 0.01, 0.0), ("cub", 0.05, 0.0), ("log", 0.02, 1717.5)):
+        g0 = (1 + a) / (1 - a); g = g0 if k == "log" else g0 ** (math.log(2)) if k == "lin" else g0 ** (10 * math.log(2) / 7)
+        out.append("%s:g:%s:%s" % (k, f2h(g), f2h(off)))
+    return out
+
 class Ctx:
     """Per-run facts learnt from the implementation (mapping ranges) used by value generators and oracles."""
     def __init__(self): self.maps = {}      # spec -> dict(acc, min, max)
